@@ -597,6 +597,62 @@ func main() {
 				}
 			}
 		}
+		// ---- (iii) damaged media: on the image in which everything is durable, the state file of every
+		// listed snapshot is damaged behind the store's back (cut short, one bit flipped, a block
+		// zeroed, a byte appended) with its meta.json intact: Open must fail or return the bytes written
+		var dmg []string
+		materialise(fsops, len(fsops), len(fsops), true, root, img)
+		if store, err := raft.NewFileSnapshotStore(img, rt, io.Discard); err == nil {
+			metas, _ := store.List()
+			for _, m := range metas {
+				s := sidOf[m.ID]
+				sp := filepath.Join(img, "snapshots", m.ID, "state.bin")
+				orig, err := os.ReadFile(sp)
+				if err != nil {
+					continue
+				}
+				var want []byte
+				for _, o := range ops {
+					if o.kind == "W" && o.sid == s {
+						want = append(want, payload(s, o.n)...)
+					}
+				}
+				for variant := 0; variant < 4; variant++ {
+					d := append([]byte{}, orig...)
+					switch variant {
+					case 0:
+						d = d[:len(d)/2]
+					case 1:
+						if len(d) > 0 {
+							d[len(d)/3] ^= 0x10
+						}
+					case 2:
+						for i := len(d) / 2; i < len(d) && i < len(d)/2+64; i++ {
+							d[i] = 0
+						}
+					case 3:
+						d = append(d, 0x5a)
+					}
+					if bytes.Equal(d, orig) {
+						continue
+					}
+					_ = os.WriteFile(sp, d, 0o644)
+					okc := 0
+					if _, rc, err := store.Open(m.ID); err == nil {
+						data, _ := io.ReadAll(rc)
+						rc.Close()
+						if bytes.Equal(data, want) {
+							okc = 1
+						} else {
+							okc = 2
+						}
+					}
+					dmg = append(dmg, fmt.Sprintf("%d %d %d", s, variant, okc))
+					st.Hist["damaged-state-files"]++
+				}
+				_ = os.WriteFile(sp, orig, 0o644)
+			}
+		}
 		_ = os.RemoveAll(img)
 		_ = os.RemoveAll(root)
 		// closed / cancelled positions
@@ -619,8 +675,8 @@ func main() {
 			ca = append(ca, fmt.Sprintf("%d %d", s, cancelledAt[s]))
 		}
 		caseLine := fmt.Sprintf("R %d OPS %d %s", rt, len(ops), scenario)
-		implLine := fmt.Sprintf("T %d %s CL %d %s CA %d %s I %d %s", len(labels), strings.Join(labels, " "), len(closedAt), strings.Join(cl, " "),
-			len(cancelledAt), strings.Join(ca, " "), len(obs), strings.Join(obs, " "))
+		implLine := fmt.Sprintf("T %d %s CL %d %s CA %d %s I %d %s DM %d %s", len(labels), strings.Join(labels, " "), len(closedAt), strings.Join(cl, " "),
+			len(cancelledAt), strings.Join(ca, " "), len(obs), strings.Join(obs, " "), len(dmg), strings.Join(dmg, " "))
 		fmt.Fprintln(w, strings.Join(strings.Fields(caseLine), " "))
 		fmt.Fprintln(w, strings.Join(strings.Fields(implLine), " "))
 		st.Cases++
